@@ -1953,8 +1953,9 @@ class GroupBy:
                 raise ValueError(
                     "Pandas index of inputs does not match that of the group keys"
                 )
-        keep = ilocs > -1
-        ilocs = ilocs[keep]
+        # head / tail give one row of positions per group: flatten group by group
+        keep = np.ravel(ilocs > -1)
+        ilocs = np.ravel(ilocs)[keep]
 
         if keep_input_index:
             if common_index is None:
@@ -1966,14 +1967,16 @@ class GroupBy:
                 n_selected = len(ilocs)
                 out_index = pd.RangeIndex(n_selected)
             else:
-                new_codes = [np.repeat(c, n)[keep] for c in self.result_index.codes]
+                # (a single key gives a flat index without codes / levels)
+                group_index = _ensure_multi_index(self.result_index)
+                new_codes = [np.repeat(c, n)[keep] for c in group_index.codes]
                 new_codes.append(np.tile(np.arange(n), self.ngroups)[keep])
-                new_levels = [*self.result_index.levels, np.arange(n)]
+                new_levels = [*group_index.levels, np.arange(n)]
                 out_index = pd.MultiIndex(
                     codes=new_codes,
                     levels=new_levels,
-                    names=[*self.result_index.names, None],
-                )[keep]
+                    names=[*group_index.names, None],
+                )
 
         col_names = self._col_names_from_value_names(value_names)
 
@@ -2088,7 +2091,15 @@ class GroupBy:
         ilocs = numba_funcs._find_nth(
             group_key=self.group_ikey, ngroups=self.ngroups, n=n
         )
-        return self._get_row_selection(values, ilocs, keep_input_index, n=n)
+        if keep_input_index:
+            return self._get_row_selection(values, ilocs, keep_input_index)
+
+        # one row per group that is long enough, labelled by the group keys
+        result = self._get_row_selection(values, ilocs, keep_input_index=False)
+        result.index = self.result_index[ilocs > -1]
+        if self._sort:
+            result = result.sort_index()
+        return result
 
     @cached_property
     def _group_first_sort_key(self):
